@@ -65,10 +65,11 @@ def unknown_ancestors(flow):
     """The regions `flow` descends from whose name tables are not known yet, oldest first"""
     found = {}  # type: dict[int, Flow]
     todo = [flow]
-    cache = LoopResolution.depth and LoopResolution.cache or {}
     while todo:
         f = todo.pop()
-        if id(f) in found or 'names' in f.__dict__ or (f, 'names') in cache:
+        if id(f) in found or 'names' in f.__dict__:
+            continue
+        if LoopResolution.stack and (f, 'names', LoopResolution.cut(f.index, f.scope.top)) in LoopResolution.cache:
             continue
         found[id(f)] = f
         if f.parents:
@@ -91,13 +92,23 @@ def unknown_ancestors(flow):
 class LoopResolution(object):
     """Loop back-edges being resolved right now.
 
-    A name table computed while some back-edge is skipped (UNRESOLVED) is
-    partial: it is valid only until that resolution ends and must not be
-    memoised for later queries.
+    While the names at the end of a loop body are resolved its back-edge is
+    skipped (UNRESOLVED), so the name table of a region inside that loop is
+    partial. Such a table depends exactly on which of the loops around the
+    region are being resolved: it is kept under that key until the
+    outermost resolution ends and never memoised on the region itself.
+    Regions outside all loops in resolution get complete tables.
     """
-    depth = 0
-    cache = {}  # type: dict[tuple[object, str], t.Any]
+    stack = []  # type: list[LoopFlow]
+    cache = {}  # type: dict[tuple[object, str, tuple[int, ...]], t.Any]
     warming = -1  # resolution depth at which ancestors are being computed
+
+    @staticmethod
+    def cut(index, top):
+        # type: (int, SourceScope) -> tuple[int, ...]
+        """The loops in resolution around the region with this index"""
+        return tuple(id(l) for l in LoopResolution.stack
+                     if l.top is top and l.first <= index <= l.last)
 
 
 def loop_aware_cached_property(func):  # type: ignore[no-untyped-def]
@@ -109,12 +120,23 @@ def loop_aware_cached_property(func):  # type: ignore[no-untyped-def]
         except KeyError:
             pass
 
-        if attr == 'names' and LoopResolution.warming != LoopResolution.depth:
+        key = None
+        if LoopResolution.stack:
+            cut = LoopResolution.cut(self.index, self.scope.top)
+            if cut:
+                key = self, attr, cut
+                try:
+                    return LoopResolution.cache[key]
+                except KeyError:
+                    pass
+
+        depth = len(LoopResolution.stack)
+        if attr == 'names' and LoopResolution.warming != depth:
             # a table is computed from the tables of the regions before it:
             # do the oldest first, so that long flat code is not walked by
             # recursion
             warming = LoopResolution.warming
-            LoopResolution.warming = LoopResolution.depth
+            LoopResolution.warming = depth
             try:
                 for flow in unknown_ancestors(self):
                     if flow is not self:
@@ -122,17 +144,11 @@ def loop_aware_cached_property(func):  # type: ignore[no-untyped-def]
             finally:
                 LoopResolution.warming = warming
 
-        if LoopResolution.depth:
-            key = self, attr
-            try:
-                return LoopResolution.cache[key]
-            except KeyError:
-                pass
-            cache = LoopResolution.cache
-            value = cache[key] = func(self)
-            return value
-
-        value = self.__dict__[attr] = func(self)
+        value = func(self)
+        if key:
+            LoopResolution.cache[key] = value
+        else:
+            self.__dict__[attr] = value
         return value
 
     return property(getter)
@@ -239,17 +255,22 @@ class Flow(object):
 
     def loop(self, to):
         # type: (Flow) -> None
-        self.parents.append(LoopFlow(to))
+        self.parents.append(LoopFlow(to, self))
 
 
 class LoopFlow(object):
     if False:
         _names = None  # type: t.Mapping[str, Name | MultiName]
 
-    def __init__(self, parent):
-        # type: (Flow) -> None
+    def __init__(self, parent, header):
+        # type: (Flow, Flow) -> None
         self.parent = parent
         self._resolving = False
+        # the regions of the loop: from its header to the last one created
+        # before the back-edge was closed
+        self.top = header.scope.top
+        self.first = header.index
+        self.last = len(self.top._all_flows) - 1
 
     @property
     def names(self):
@@ -262,26 +283,27 @@ class LoopFlow(object):
         except AttributeError:
             pass
 
-        key = self, 'loop'
-        try:
-            return LoopResolution.cache[key]  # type: ignore[no-any-return]
-        except KeyError:
-            pass
+        cut = LoopResolution.cut(self.first, self.top)
+        key = self, 'loop', cut
+        if cut:
+            try:
+                return LoopResolution.cache[key]  # type: ignore[no-any-return]
+            except KeyError:
+                pass
 
         self._resolving = True
-        outer_cache = LoopResolution.cache
-        LoopResolution.cache = {}
-        LoopResolution.depth += 1
+        LoopResolution.stack.append(self)
         try:
             result = self.parent.names
         finally:
             self._resolving = False
-            LoopResolution.depth -= 1
-            LoopResolution.cache = outer_cache
+            LoopResolution.stack.pop()
+            if not LoopResolution.stack:
+                LoopResolution.cache.clear()
 
-        if LoopResolution.depth:
+        if cut:
             # an enclosing loop is still unresolved: the result is partial too
-            outer_cache[key] = result
+            LoopResolution.cache[key] = result
         else:
             self._names = result
 
